@@ -9,7 +9,7 @@ CONSTANTS
   IDPAIRS <- c_IDPAIRS
   STAKERS = {"s1"}
   PREC = 100
-  DEVIATIONS = {"ACC"}
+  DEVIATIONS = {}
   EXTRAS = {1, 2}
   TAXES = {2}
   REWARDS = {0}
